@@ -123,13 +123,13 @@ class Spelling:
         return False if self.rng is None else self.rng.random() < p
 
 
-def print_text(text, sp, guard_first, static=False):
+def print_text(text, sp, guard_first, static=False, quoted=False):
     """one text run (no numbers) in a permitted spelling. guard_first: the first chunk must not be
     readable as a number / unit / preposition / remainder word (it follows an amount or starts a leaf)."""
     def dangerous(t):
         return t[0].isdigit() or first_word(t) in DANGEROUS_FIRST or t[0] in "%*"
     # split at an inner [ \t]+ run into independently spelled chunks
-    if sp.flip(0.3):
+    if sp.flip(0.3) and not quoted:
         idxs = [i for i in range(1, len(text) - 1) if text[i] in " \t" and text[i - 1] not in " \t"]
         if idxs:
             i = sp.choice(idxs)
@@ -138,8 +138,15 @@ def print_text(text, sp, guard_first, static=False):
                 j += 1
             if j < len(text):
                 return print_text(text[:i], sp, guard_first, static) + text[i:j] + print_text(text[j:], sp, False, static)
+    # split inside a word into adjacent parts, each in its own style (spam'and'eggs): adjacent parts are concatenated
+    if sp.flip(0.12) and not quoted:
+        idxs = [i for i in range(1, len(text)) if not text[i - 1].isspace() and not text[i].isspace()]
+        if idxs:
+            i = sp.choice(idxs)
+            # (the right-hand part is always quoted: two naked parts side by side are one naked string, to which the guard applies as a whole)
+            return print_text(text[:i], sp, guard_first, static) + print_text(text[i:], sp, True, static, quoted=True)
     styles = []
-    if naked_ok(text) and not (guard_first and dangerous(text)):
+    if naked_ok(text) and not (guard_first and dangerous(text)) and not quoted:
         styles += ["naked", "naked"]
     styles += ["s", "d"]
     if not static:
